@@ -1214,9 +1214,30 @@ func count(r *hxlib.Run, sc *scenario, lines []string) {
 			r.Count("force:" + k)
 		}
 	}
+	lim := sc.Lim
+	if lim < 2 {
+		lim = 2
+	}
+	runningML, maxML := map[string]bool{}, 0
 	for _, l := range lines {
 		f := strings.Fields(l)
+		if len(f) == 0 {
+			continue
+		}
 		switch f[0] {
+		case "h":
+			if len(f) >= 3 && (f[1] == "fnbegin" || f[1] == "fnend") {
+				if tid, err := strconv.Atoi(f[2]); err == nil && tid >= 0 && tid < len(sc.Tasks) && sc.Tasks[tid].Prio != 2 {
+					if f[1] == "fnbegin" {
+						runningML[f[2]] = true
+						if len(runningML) > maxML {
+							maxML = len(runningML)
+						}
+					} else {
+						delete(runningML, f[2])
+					}
+				}
+			}
 		case "t":
 			r.Count("event:t-" + f[2])
 			if (f[2] == "dec" || f[2] == "hinc") && strings.HasPrefix(f[3], "-") {
@@ -1225,6 +1246,14 @@ func count(r *hxlib.Run, sc *scenario, lines []string) {
 		case "s":
 			r.Count("event:s-" + f[1])
 		}
+	}
+	switch {
+	case maxML > lim:
+		r.Count("branch:overlap-above-limit(expiry/shutdown/high)")
+	case maxML == lim:
+		r.Count("branch:overlap-equals-limit")
+	default:
+		r.Count("branch:overlap-below-limit")
 	}
 }
 
